@@ -292,6 +292,15 @@ def generate(repo, outdir_lean, outdir_json, write_if_changed):
                             f"    (h : commitObj {mod}.classes 4 {mid} [] obj s = .ok s') :\n"
                             f"    constructObj {mod}.classes 4 {mid} [] s' = .ok (Aoe.Props.CommitHolds.normalize {mod}.classes 4 {mid} [] obj) :=\n"
                             f"  Aoe.Props.CommitHolds.construct_after_commit {mod}.classes 4 {mid} [] obj s s' tableSafe_{mod}_{cname} hwf h\n")
+            laws_src.append(f"theorem namesOk_{mod}_{cname} : Aoe.Props.CommitCounts.namesOk {mod}.classes 4 {mid} = true := by decide")
+            laws_src.append(f"/-- after the commit of a {cname} (version {v}) every counted object list of its object tree, at every depth, is stored\n"
+                            f"with a count equal to its number of objects (`Counts`), and with one record per object (`Holds`) -/\n"
+                            f"theorem counts_after_commit_{mod}_{cname} (obj : Val) (s s' : Sections)\n"
+                            f"    (h : commitObj {mod}.classes 4 {mid} [] obj s = .ok s') :\n"
+                            f"    Aoe.Props.CommitCounts.Counts {mod}.classes 4 {mid} [] obj s'.root ∧\n"
+                            f"    Aoe.Props.CommitHolds.Holds {mod}.classes 4 {mid} [] obj s'.root :=\n"
+                            f"  ⟨Aoe.Props.CommitCounts.commit_counts {mod}.classes 4 {mid} [] obj s s' tableSafe_{mod}_{cname} namesOk_{mod}_{cname} h,\n"
+                            f"   Aoe.Props.CommitHolds.commit_holds {mod}.classes 4 {mid} [] obj s s' tableSafe_{mod}_{cname} h⟩\n")
         # every class: each plain link reads back what was pushed (side conditions by `decide`); depth = number of index steps
         for cid, (cname, links) in enumerate(g.class_defs):
             depth = max([m2.group(1).count(".hidx") for l2 in links for m2 in [re.search(r"\.(?:plain|objs) \[([^\]]*)\]", l2)] if m2] + [0])
@@ -362,7 +371,7 @@ def generate(repo, outdir_lean, outdir_json, write_if_changed):
     agg += "\n".join(f"  {'if' if i == 0 else 'else if'} v == \"{v}\" then some ({m}.classes, {m}.managers, {m}.secNames)" for i, (v, m) in enumerate(mods))
     agg += "\n  else none\nend Aoe.Generated\n"
     fn = os.path.join(outdir_lean, "MgrTables.lean"); write_if_changed(fn, agg); files.append(fn)
-    laws = ("import Aoe.Props.Links\nimport Aoe.Props.CommitFrame\nimport Aoe.Props.CommitHolds\nimport Aoe.Generated.MgrTables\n/-! GENERATED by tools/gen_mgr.py – `commit ∘ construct = id` instantiated at every generated class "
+    laws = ("import Aoe.Props.Links\nimport Aoe.Props.CommitFrame\nimport Aoe.Props.CommitHolds\nimport Aoe.Props.CommitCounts\nimport Aoe.Generated.MgrTables\n/-! GENERATED by tools/gen_mgr.py – `commit ∘ construct = id` instantiated at every generated class "
             "whose links are plain value links without refresh actions (side condition closed by `decide`). -/\n"
             "namespace Aoe.Generated.MgrLaws\nopen Aoe Aoe.Codec Aoe.Lens Aoe.Commit Aoe.Generated\n\n" + "\n".join(laws_src) + "\nend Aoe.Generated.MgrLaws\n")
     fn = os.path.join(outdir_lean, "MgrLaws.lean"); write_if_changed(fn, laws); files.append(fn)
